@@ -256,10 +256,25 @@ class FakeZeroconf:
         self.label = label
         self.listeners: list[Any] = []
         self.closed = False
+        self.cache: list[tuple[float, Any]] = []  # (virtual instant seen, record): what this instance has heard on the network
 
     def async_add_listener(self, listener: Any, question: Any) -> None:
         self.listeners.append(listener)
         self.zlog.events.append((self.zlog.now(), "add_listener", self.label))
+        if question is None:
+            return
+        # like the real Zeroconf: a listener registered with question(s) is handed, synchronously, the cached records that answer them
+        from zeroconf import RecordUpdate
+
+        questions = question if isinstance(question, (list, tuple)) else [question]
+        now = self.zlog.now()
+        hits = [r for t, r in self.cache if now - t < float(getattr(r, "ttl", 0)) and any(q.answered_by(r) for q in questions)]
+        if hits:
+            self.zlog.events.append((now, "replay_cached", self.label, len(hits)))
+            listener.async_update_records(self, now * 1000.0, [RecordUpdate(r, None) for r in hits])
+            done = getattr(listener, "async_update_records_complete", None)
+            if done is not None:
+                done()
 
     def async_remove_listener(self, listener: Any) -> None:
         if listener in self.listeners:
